@@ -164,38 +164,48 @@ def run_exec(lines):
     return out
 
 
+ACTIVE_PROP = [None]      # the property whose verdicts the driver is asked for (None = all)
+
+
 def run_driver(lines, obs):
     inp = "\n".join((l + " => " + o) if o is not None else l for l, o in zip(lines, obs)) + "\n"
-    p = subprocess.run([DRIVER_BIN], input=inp, stdout=subprocess.PIPE, stderr=subprocess.PIPE, text=True, timeout=3600)
+    if ACTIVE_PROP[0]:
+        inp = "prop %s\n" % ACTIVE_PROP[0] + inp
+    p = subprocess.run([DRIVER_BIN], input=inp, stdout=subprocess.PIPE, stderr=subprocess.PIPE, text=True, timeout=7200)
     out = p.stdout.splitlines()
+    if ACTIVE_PROP[0] and out:
+        out = out[1:]
     if p.returncode != 0 or len(out) != len(lines):
         raise RuntimeError("driver failed: rc=%s, %d answers for %d requests\n%s" % (p.returncode, len(out), len(lines), p.stderr[-2000:]))
     return out
 
 
 def run_driver_parallel(lines, obs, workers=12):
-    """decsweep lines are context-free and slow on the model side: run them on several driver
-    processes; everything else keeps its order in one process"""
+    """the driver is the slow side: contexts are independent of each other, so the lines are split
+    by context id (context-free lines round-robin) over several driver processes, each keeping its
+    lines in order; answers are merged back by index"""
     from concurrent.futures import ThreadPoolExecutor
-    idx = [i for i, l in enumerate(lines) if l.startswith("decsweep ")]
-    if len(idx) < 2:
+    if len(lines) < 4000 and sum(1 for l in lines if l.startswith("decsweep ")) < 2:
         return run_driver(lines, obs)
-    rest = [i for i in range(len(lines)) if not lines[i].startswith("decsweep ")]
+    groups = [[] for _ in range(workers)]
+    rr = 0
+    for i, l in enumerate(lines):
+        c = ctx_of(l)
+        if l.startswith("dec ") or l.startswith("len "):
+            c = None                       # the decoder / probe ignore the context id
+        if c is None:
+            groups[rr % workers].append(i)
+            rr += 1
+        else:
+            groups[sum(map(ord, c)) % workers].append(i)
+    groups = [g for g in groups if g]
     out = [None] * len(lines)
-    chunks = [idx[k::workers] for k in range(workers)]
-    chunks = [c for c in chunks if c]
 
-    def job(c):
-        return c, run_driver([lines[i] for i in c], [None for _ in c])
-    with ThreadPoolExecutor(max_workers=len(chunks) + 1) as ex:
-        futs = [ex.submit(job, c) for c in chunks]
-        if rest:
-            rr = run_driver([lines[i] for i in rest], [obs[i] for i in rest])
-            for i, a in zip(rest, rr):
-                out[i] = a
-        for f in futs:
-            c, ans = f.result()
-            for i, a in zip(c, ans):
+    def job(g):
+        return g, run_driver([lines[i] for i in g], [obs[i] for i in g])
+    with ThreadPoolExecutor(max_workers=len(groups)) as ex:
+        for g, ans in ex.map(job, groups):
+            for i, a in zip(g, ans):
                 out[i] = a
     return out
 
@@ -336,7 +346,7 @@ def ctx_of(line):
     t = line.split()
     if t[0] in ("ctx", "proc", "seteid", "setuuid", "enc", "encr"):
         return t[1]
-    if t[0] == "rtdec":
+    if t[0] in ("rtdec", "hdr"):
         return t[2]
     if t[0] in ("dec", "len") and len(t) == 3:
         return t[1]
@@ -619,6 +629,7 @@ def _receivers(lines):
 def check_property(prop, tier, seed, max_search=20000):
     import random
     rnd = random.Random(seed ^ 0x5EED)
+    ACTIVE_PROP[0] = prop
     res = Result(prop, tier, seed)
     known = load_findings().get(prop, {})
     thm = theorems_of(prop)
@@ -925,6 +936,7 @@ def finish(res):
 def replay(path):
     doc = json.load(open(path))
     prop = doc["property"]
+    ACTIVE_PROP[0] = prop
     known = load_findings().get(prop, {})
     ops = doc.get("ops") or []
     if not ops:
